@@ -1374,6 +1374,11 @@ class Tensor:
                         f"`grad` must be broadcast-compatible with `tensor.shape={self.shape}`\n"
                         f"Got `grad.shape={_grad.shape}`"
                     )
+            if _grad.strides != self.data.strides:
+                # the gradient must share the memory layout of the tensor's data so
+                # that a view of this tensor can take the same view of its gradient
+                _seed, _grad = _grad, np.empty_like(self.data)
+                _grad[...] = _seed
         else:
             _grad = np.full_like(self.data, fill_value=1.0)
 
